@@ -26,6 +26,26 @@ def others_same(f, *fns):
     return all(f['funcs'][k] == v for k, v in BASE['funcs'].items() if k not in fns)
 
 
+def dchanged(f, fn, *gone):
+    """the transliteration of a function of internal/difflib/difflib.go (Generated/DifflibGen.lean) differs
+    from the baseline and no longer contains the given fragments; with --lean the mutated DifflibGen.lean
+    is compiled and Props/Tie/DifflibGen.lean (finite agreement with the hand port by kernel evaluation,
+    the proved ties) must then FAIL"""
+    t = f.get('funcs', {}).get(fn)
+    return t is not None and t != BASE['funcs'][fn] and all(x not in t for x in gone)
+
+
+DIFFLIB_FNS = ['min', 'max', 'sequenceMatcher.isBJunk', 'sequenceMatcher.chainB', 'sequenceMatcher.setSeq1', 'sequenceMatcher.setSeq2',
+               'sequenceMatcher.setSeqs', 'NewMatcher', 'sequenceMatcher.findLongestMatch', 'sequenceMatcher.getMatchingBlocks',
+               'sequenceMatcher.getOpCodes', 'sequenceMatcher.GetGroupedOpCodes']
+
+
+def drefused(f, *fns):
+    """the extractor left exactly these difflib functions out (and recorded why)"""
+    return all(k in f['funcs_failed'] and k not in f['funcs'] for k in fns) and \
+        all(k in f['funcs'] for k in DIFFLIB_FNS if k not in fns)
+
+
 MUTANTS = [
     # (name, file, old, new, expectation on the facts / exit status)
     ('lock removed from updateSnapshot', 'snaps/snapshot.go', '\t_m.Lock()\n\tdefer _m.Unlock()\n\tf, err := os.OpenFile(snapPath, os.O_RDWR', '\tf, err := os.OpenFile(snapPath, os.O_RDWR',
@@ -116,6 +136,31 @@ MUTANTS = [
     ('singlelineDiff writes through a second pointer to the buffer of the - row (aliasing)', 'snaps/diff.go',
      '\tb := &bytes.Buffer{}\n', '\tb := &bytes.Buffer{}\n\talias := a\n\talias.WriteByte(\'!\')\n',
      lambda f, rc: rc == 0 and 'singlelineDiff' in f['funcs_failed'] and 'singlelineDiff' not in f['funcs']),
+    # --- internal/difflib/difflib.go, the matcher itself (Generated/DifflibGen.lean, Props/Tie/DifflibGen.lean)
+    ('chainB purges popular elements only above 200 lines (> for >=)', 'internal/difflib/difflib.go',
+     'if m.autoJunk && n >= 200 {', 'if m.autoJunk && n > 200 {',
+     lambda f, rc: rc == 0 and dchanged(f, 'sequenceMatcher.chainB', 'n >= (200 : Int)') and others_same(f, 'sequenceMatcher.chainB')),
+    ('findLongestMatch prefers the LAST of several longest matches (>= for > in the tie-break)', 'internal/difflib/difflib.go',
+     '\t\t\tif k > bestsize {\n', '\t\t\tif k >= bestsize {\n',
+     lambda f, rc: rc == 0 and dchanged(f, 'sequenceMatcher.findLongestMatch', 'k > bestsize') and others_same(f, 'sequenceMatcher.findLongestMatch')),
+    ('getOpCodes calls a pure deletion a replacement (|| for &&)', 'internal/difflib/difflib.go',
+     '\t\tif i < ai && j < bj {\n\t\t\ttag = OpReplace', '\t\tif i < ai || j < bj {\n\t\t\ttag = OpReplace',
+     lambda f, rc: rc == 0 and dchanged(f, 'sequenceMatcher.getOpCodes', '(decide (i < ai)) && (decide (j < bj))') and others_same(f, 'sequenceMatcher.getOpCodes')),
+    ('GetGroupedOpCodes keeps n+1 lines of context after a change', 'internal/difflib/difflib.go',
+     '\t\t\t\tc.Tag, i1, min(i2, i1+n),\n', '\t\t\t\tc.Tag, i1, min(i2, i1+n+1),\n',
+     lambda f, rc: rc == 0 and dchanged(f, 'sequenceMatcher.GetGroupedOpCodes') and others_same(f, 'sequenceMatcher.GetGroupedOpCodes')),
+    ('NewMatcher installs a junk predicate (the specialisation IsJunk == nil no longer holds)', 'internal/difflib/difflib.go',
+     'm := sequenceMatcher{autoJunk: true}', 'm := sequenceMatcher{autoJunk: true, IsJunk: func(s string) bool { return s == "" }}',
+     lambda f, rc: rc == 0 and drefused(f, 'sequenceMatcher.chainB', 'sequenceMatcher.setSeq2', 'sequenceMatcher.setSeqs', 'NewMatcher')),
+    ('NewMatcher switches the popularity heuristic off (the specialisation autoJunk == true no longer holds)', 'internal/difflib/difflib.go',
+     'm := sequenceMatcher{autoJunk: true}', 'm := sequenceMatcher{autoJunk: false}',
+     lambda f, rc: rc == 0 and drefused(f, 'sequenceMatcher.chainB', 'sequenceMatcher.setSeq2', 'sequenceMatcher.setSeqs', 'NewMatcher')),
+    ('chainB: a loop over a map whose result depends on the iteration order', 'internal/difflib/difflib.go',
+     '\t\t\tif len(indices) > ntest {\n\t\t\t\tpopular[s] = struct{}{}\n\t\t\t}\n', '\t\t\tif len(indices) > ntest {\n\t\t\t\tpopular[s] = struct{}{}\n\t\t\t\tntest++\n\t\t\t}\n',
+     lambda f, rc: rc == 0 and drefused(f, 'sequenceMatcher.chainB', 'sequenceMatcher.setSeq2', 'sequenceMatcher.setSeqs', 'NewMatcher')),
+    ('findLongestMatch leaves an extension loop with a break (outside the translated subset)', 'internal/difflib/difflib.go',
+     '\t\tm.a[besti+bestsize] == m.b[bestj+bestsize] {\n\t\tbestsize++\n\t}\n\n\t// Now that', '\t\tm.a[besti+bestsize] == m.b[bestj+bestsize] {\n\t\tbestsize++\n\t\tif bestsize > 1000 {\n\t\t\tbreak\n\t\t}\n\t}\n\n\t// Now that',
+     lambda f, rc: rc == 0 and drefused(f, 'sequenceMatcher.findLongestMatch', 'sequenceMatcher.getMatchingBlocks', 'sequenceMatcher.getOpCodes', 'sequenceMatcher.GetGroupedOpCodes')),
     ('sjson ReplaceInPlace', 'match/utils.go', '\t\tOptimistic: true,\n', '\t\tOptimistic: true,\n\t\tReplaceInPlace: true,\n',
      lambda f, rc: rc == 0 and f['bools']['sjsonReplaceInPlace'] is True),
 ]
@@ -151,6 +196,39 @@ def lean_rejects(gen_dir):
         return False
     finally:
         shutil.rmtree(d, ignore_errors=True)
+
+
+def lean_rejects_difflib(gen_dir):
+    """compile gen_dir/DifflibGen.lean in place of the project's and re-check Props/Tie/DifflibGen.lean:
+    True when it no longer checks (the mutant is caught by kernel evaluation or by proof)"""
+    leandir = ROOT + '/lean'
+    built = leandir + '/.lake/build/lib/lean'
+    if not os.path.exists(built + '/GoSnaps/Props/Tie/DifflibGen.olean'):
+        print('extractor self-test: --lean needs `lake build` in', leandir)
+        sys.exit(1)
+    lean = subprocess.run(['lake', 'env', 'which', 'lean'], cwd=leandir, stdout=subprocess.PIPE).stdout.decode().split()[-1]
+    d = tempfile.mkdtemp(prefix='extlean_')
+    try:
+        lib = d + '/lib'
+        subprocess.run(['cp', '-as', built, lib], check=True)
+        for e in ('olean', 'ilean'):
+            if os.path.lexists(lib + '/GoSnaps/Generated/DifflibGen.' + e):
+                os.remove(lib + '/GoSnaps/Generated/DifflibGen.' + e)
+        env = dict(os.environ, LEAN_PATH=lib)
+        shutil.copy(gen_dir + '/DifflibGen.lean', d + '/DifflibGen.lean')
+        r = subprocess.run([lean, 'DifflibGen.lean', '-o', lib + '/GoSnaps/Generated/DifflibGen.olean'], cwd=d, env=env,
+                           stdout=subprocess.PIPE, stderr=subprocess.STDOUT)
+        if r.returncode != 0:
+            return True
+        r = subprocess.run([lean, 'GoSnaps/Props/Tie/DifflibGen.lean'], cwd=leandir, env=env, stdout=subprocess.PIPE, stderr=subprocess.STDOUT)
+        return r.returncode != 0
+    finally:
+        shutil.rmtree(d, ignore_errors=True)
+
+
+# difflib mutants that only show on sequences of 200 and more lines: out of reach of the finite agreement
+# test (kernel evaluation on short sequences); they are noticed as a changed transliteration only
+LEAN_BLIND = ('chainB purges popular elements only above 200 lines (> for >=)',)
 
 
 def main():
@@ -191,6 +269,9 @@ def main():
             elif with_lean and 'changed' in ok.__code__.co_names and not lean_rejects(out):
                 bad += 1
                 print('extractor self-test: the tie theorems still check for the mutant:', name)
+            elif with_lean and 'dchanged' in ok.__code__.co_names and name not in LEAN_BLIND and not lean_rejects_difflib(out):
+                bad += 1
+                print('extractor self-test: Props/Tie/DifflibGen.lean still checks for the mutant:', name)
         finally:
             shutil.rmtree(d, ignore_errors=True)
     print('extractor self-test: %d mutants, %d not applicable to the current source, %d not noticed' % (len(MUTANTS), skipped, bad))
